@@ -150,8 +150,14 @@ def main():
     info = ws.sync()
     modname = "verif_%s" % prop.lower()
     groups = {}
+    standalone = plan.get("standalone", {})
     for h in sel:
         crate, relp = h.where
+        if crate in standalone:
+            h.pkg = standalone[crate]["pkg"]
+            h.path = "verif_%s::%s" % (prop.lower(), h.name)
+            groups.setdefault((crate, h.slice), []).append(h)
+            continue
         if relp not in ws.HOOKS.get(crate, []):
             raise SystemExit("INCONCLUSIVE: %s/%s is not a hookable file (engine/ws.py HOOKS)" % (crate, relp))
         h.pkg = ws.hpkg(crate)
@@ -178,11 +184,17 @@ def main():
         texts = {}
         for relp, hl in gens.items():
             texts[relp] = model.module_text(prop, hl, plan.get("incrate_prelude", {}).get((crate, relp), ""))
-        ws.set_hooks(crate, texts)
         tag = "%s-%s-%d-%s" % (prop, crate, n, tier)
         extra = ["--no-default-features", "--features", slc] if slc else []
         heavy = any(getattr(h, "heavy", False) for h in lst)
-        res, meta = kani.run_group(ws.hpkg(crate), lst, extra, min(a.jobs, caps.get("heavy_jobs", 5)) if heavy else a.jobs, htimeout,
+        if crate in standalone:
+            sa = standalone[crate]
+            ws.write_standalone(crate, sa["pkg"], sa["cargo"], sa["lib_prelude"] + model.module_text(prop, lst, sa.get("mod_prelude", "")))
+            pkgname = sa["pkg"]
+        else:
+            ws.set_hooks(crate, texts)
+            pkgname = ws.hpkg(crate)
+        res, meta = kani.run_group(pkgname, lst, extra, min(a.jobs, caps.get("heavy_jobs", 5)) if heavy else a.jobs, htimeout,
                                    caps.get("heavy_rss_gb", 10) if heavy else rss, os.path.join(logdir, tag), tag)
         meta["slice"] = slc
         meta["harnesses"] = len(lst)
@@ -200,6 +212,11 @@ def main():
     for h in sel:
         r = results[h.name]
         v, tags = classify(h, r)
+        if v == "violation" and plan.get("tag_filter"):
+            # this property only owns some of the assertions of a shared harness; the others are decided under their own property
+            tags = [(t, d) for t, d in tags if re.fullmatch(plan["tag_filter"], t)]
+            if not tags:
+                v = "pass"
         if v == "violation":
             unknown = []
             for tag, detail in tags:
